@@ -43,6 +43,13 @@ Proof.
   - decide equality; apply Bool.bool_dec.
   - decide equality; apply exit_eq_dec.
 Defined.
+Definition resp_eq_dec (a b : resp) : {a = b} + {a <> b}.
+Proof. decide equality; [apply val_eq_dec | apply exn_eq_dec]. Defined.
+Definition msg_eq_dec (a b : msg) : {a = b} + {a <> b}.
+Proof.
+  decide equality; try apply Nat.eq_dec; try apply cmd_eq_dec;
+    try (decide equality; apply Nat.eq_dec).
+Defined.
 Definition input_eq_dec (a b : input) : {a = b} + {a <> b}.
 Proof. decide equality; [apply val_eq_dec | apply exn_eq_dec]. Defined.
 Definition devmeth_eq_dec (a b : devmeth) : {a = b} + {a <> b}. Proof. decide equality. Defined.
@@ -57,8 +64,8 @@ Proof. decide equality; [apply list_eq_dec, Nat.eq_dec | apply exn_eq_dec]. Defi
 Definition where_eq_dec (a b : where_t) : {a = b} + {a <> b}. Proof. decide equality; apply exn_eq_dec. Defined.
 Definition obs_eq_dec (a b : obs) : {a = b} + {a <> b}.
 Proof.
-  decide equality; try apply Nat.eq_dec; try apply Bool.bool_dec; try apply rstate_eq_dec; try apply cmd_eq_dec;
-    try apply doc_eq_dec; try apply devmeth_eq_dec; try apply input_eq_dec; try apply out_eq_dec; try apply where_eq_dec.
+  decide equality; try apply Nat.eq_dec; try apply Bool.bool_dec; try apply rstate_eq_dec; try apply msg_eq_dec;
+    try apply resp_eq_dec; try apply doc_eq_dec; try apply devmeth_eq_dec; try apply input_eq_dec; try apply out_eq_dec; try apply where_eq_dec.
 Defined.
 
 Fixpoint first_diff (n : nat) (a b : list obs) : option nat :=
